@@ -248,6 +248,70 @@ where
             dviol(ctx, ft, alpha, &sym, "random_stream", format!("Dirichlet<{:?}>({:?}): {}", ft, alpha, msg));
         }
     }
+    // T5 on the components (Gamma method only: the Beta method's exact 0 / 1 components are a known finding): no
+    // single value of x[0] or x[len-1] may occur more often than its Beta marginal allows for its grid cell — a
+    // rare constant fallback ("all variates underflowed: return the centre") is invisible to the bin tests
+    if class != "all<=0.1(beta method)" {
+        use crate::stats::{atom_candidates, atom_min_count, atom_rejections};
+        let m: usize = if ctx.thorough() { 1 << 20 } else { 1 << 18 };
+        let draw = |m: usize, seed: u64| -> (Vec<f64>, Vec<f64>) {
+            let parts: Vec<(Vec<f64>, Vec<f64>)> = (0..16u64)
+                .into_par_iter()
+                .map(|c| {
+                    let d = d.clone();
+                    let mut rng = VRng::from_env(hseed(&[seed, c]));
+                    let mut buf = vec![F::default(); len];
+                    let (mut a, mut b) = (Vec::with_capacity(m / 16), Vec::with_capacity(m / 16));
+                    for _ in 0..m / 16 {
+                        rng.begin_call();
+                        if catch(|| d.sample_to_slice(&mut rng, &mut buf)).is_err() {
+                            break;
+                        }
+                        a.push(buf[0].f());
+                        b.push(buf[len - 1].f());
+                    }
+                    (a, b)
+                })
+                .collect();
+            let (mut a, mut b) = (vec![], vec![]);
+            for (x, y) in parts {
+                a.extend(x);
+                b.extend(y);
+            }
+            (a, b)
+        };
+        let (r0, r1) = draw(m, hseed(&[seed, 0xA70]));
+        let mut conf: Option<(Vec<f64>, Vec<f64>)> = None;
+        for (which, idx, raw) in [("x[0]", 0usize, &r0), ("x[last]", len - 1, &r1)] {
+            let cell = Cell { p: vec![alpha[idx], a0 - alpha[idx]], ..Cell::new(Fam::Beta, ft, &[alpha[idx], a0 - alpha[idx]]) };
+            let law = match reflaw(&cell) {
+                Some(l) => l,
+                None => continue,
+            };
+            let mut sl = Slack::for_cell(&cell, &law);
+            sl.delta_rel *= 1.0 + len as f64 / 4.0;
+            sl.rho_rel = (sl.rho_rel * (1.0 + len as f64)).min(0.5);
+            let mm = raw.len() as u64;
+            if mm < 1000 {
+                continue;
+            }
+            let rej = atom_rejections(&law, &sl, ft, &atom_candidates(raw, atom_min_count(mm, sl.rho_abs)), mm);
+            if rej.is_empty() {
+                continue;
+            }
+            if conf.is_none() {
+                conf = Some(draw(4 * m, hseed(&[seed, 0xA71])));
+            }
+            let raw2 = if idx == 0 { &conf.as_ref().unwrap().0 } else { &conf.as_ref().unwrap().1 };
+            let c2: Vec<(f64, u64)> = rej.iter().map(|r| (r.at, raw2.iter().filter(|&&v| v == r.at).count() as u64)).collect();
+            let rej2 = atom_rejections(&law, &sl, ft, &c2, raw2.len() as u64);
+            if let Some(r) = rej2.iter().find(|r| rej.iter().any(|f| f.same_stat(r))) {
+                dviol(ctx, ft, alpha, "law:T5:atom", "marginal", format!("Dirichlet<{:?}>({:?}): {which} takes the single value {:e} with frequency {:.3e} (confirmed on an independent stream); its Beta marginal allows {:.3e} for that grid cell", ft, alpha, r.at, r.observed, r.allowed_hi));
+                break;
+            }
+        }
+        ctx.class("atom_test_draws", m as u64);
+    }
     let opts = TestOpts::default();
     // components live on a simplex: absolute resolution eps * 2^12; below that only the full-edge test looks (tagged)
     let cutoff = ft.eps() * 4096.0;
@@ -296,7 +360,7 @@ pub fn run_c11(ctx: &Ctx) {
             let nn = if a.len() > 16 { n / 4 } else { n };
             let seed = hseed(&[ctx.seed, ft as u64, i as u64, 0xD1]);
             let cell = Cell::new(Fam::Dirichlet, ft, a);
-            if !ctx.strict && ctx.in_known_region(&cell) && i >= 15 {
+            if !ctx.strict && ctx.in_known_region(&cell) && i >= crate::envelope::DIRICHLET_FIXED {
                 ctx.class("random_vectors_excluded_by_known_finding_region", 1);
                 continue;
             }
